@@ -307,3 +307,65 @@ pub fn validate_v3(data: &[u8], ty: u64, want: &[(Vec<u8>, u64)]) -> Result<Deco
     }
     Ok(d)
 }
+
+
+/// Choose the 4 bytes at `pos..pos+4` of `msg` so that mask(crc32c(msg)) == target (CRC is affine over GF(2)).
+/// Returns false if the 32x32 system is singular (cannot happen for a 4-byte window, kept for safety).
+pub fn forge_masked_crc(msg: &mut [u8], pos: usize, target: u32) -> bool {
+    let want_crc = target.wrapping_sub(0xA282EAD8).rotate_left(15);
+    for b in msg[pos..pos + 4].iter_mut() {
+        *b = 0;
+    }
+    let base = crc32c(msg);
+    let mut cols = [0u32; 32];
+    for i in 0..32 {
+        msg[pos + i / 8] ^= 1 << (i % 8);
+        cols[i] = crc32c(msg) ^ base;
+        msg[pos + i / 8] ^= 1 << (i % 8);
+    }
+    // solve sum x_i * cols[i] = base ^ want_crc by Gaussian elimination over GF(2)
+    let rhs = base ^ want_crc;
+    // rows = output bits; build augmented matrix: row r has bit i set if cols[i] has bit r
+    let mut rows = [0u64; 32];
+    for r in 0..32 {
+        let mut v = 0u64;
+        for i in 0..32 {
+            if cols[i] >> r & 1 == 1 {
+                v |= 1 << i;
+            }
+        }
+        if rhs >> r & 1 == 1 {
+            v |= 1 << 32;
+        }
+        rows[r] = v;
+    }
+    let mut piv_of_col = [usize::MAX; 32];
+    let mut r0 = 0;
+    for c in 0..32 {
+        if let Some(p) = (r0..32).find(|&r| rows[r] >> c & 1 == 1) {
+            rows.swap(r0, p);
+            for r in 0..32 {
+                if r != r0 && rows[r] >> c & 1 == 1 {
+                    rows[r] ^= rows[r0];
+                }
+            }
+            piv_of_col[c] = r0;
+            r0 += 1;
+        }
+    }
+    if r0 < 32 {
+        return false;
+    }
+    let mut x = 0u32;
+    for c in 0..32 {
+        if rows[piv_of_col[c]] >> 32 & 1 == 1 {
+            x |= 1 << c;
+        }
+    }
+    for i in 0..32 {
+        if x >> i & 1 == 1 {
+            msg[pos + i / 8] ^= 1 << (i % 8);
+        }
+    }
+    mask(crc32c(msg)) == target
+}
